@@ -216,7 +216,7 @@ Definition update_max_fragment_id (frags : list Fragment) (cur : option N) : out
 Fixpoint insert_frag (f : Fragment) (l : list Fragment) : list Fragment :=
   match l with
   | [] => [f]
-  | g :: r => if fr_id g <=? fr_id f then g :: insert_frag f r else f :: l
+  | g :: r => if fr_id g <? fr_id f then g :: insert_frag f r else f :: l
   end.
 Definition sort_frags (l : list Fragment) : list Fragment := fold_right insert_frag [] l.
 
@@ -325,7 +325,7 @@ Fixpoint collect_pure_ids (l : list Fragment) : outcome (list N) :=
 Definition is_system_index (i : Index) : bool :=
   (ix_name i =? FRAG_REUSE_INDEX_NAME) || (ix_name i =? MEM_WAL_INDEX_NAME).
 
-(* `index.fields.iter().any(|id| set.contains(&u32::try_from(*id).unwrap()))`: panics on a negative id reached
+(* `index.fields.iter().any(|id| set.contains(&u32::try_from(id).unwrap()))`: panics on a negative id reached
    before the first hit *)
 Fixpoint any_field_in (fields : list Z) (set : list N) : outcome bool :=
   match fields with
@@ -592,6 +592,14 @@ Definition data_storage_format_from_files (l : list Fragment) (user_requested : 
   | None => match user_requested with Some u => Ok (resolve u) | None => Ok V2_0 end
   end.
 
+(* Fragment::num_rows computes `len - num_deleted_rows` on usize: panics (debug) when the metadata claims more
+   deleted rows than the fragment has *)
+Definition num_rows_underflows (f : Fragment) : bool :=
+  match fr_phys f, fr_deletion f with
+  | Some len, Some d => match dl_num d with Some n => len <? n | None => false end
+  | _, _ => false
+  end.
+
 (* ---------------------------------------------------------------- build_manifest *)
 Definition with_existing (cur : option Manifest) : outcome (list Fragment) :=
   match cur with Some m => Ok (m_fragments m) | None => Err end.
@@ -607,116 +615,133 @@ Definition stamp_if_stable (cur : option Manifest) (next_row_id : option N) (l :
   | None => Ok (l, None)
   end.
 
-Definition build_manifest (cur : option Manifest) (op : Operation) (cfg : config) : outcome Manifest :=
-  if cfg_stable cfg && match cur with Some m => negb (uses_stable m) | None => false end then Err else
-  let* schema :=
-    match op with
-    | Overwrite _ s _ => Ok s
-    | Merge _ s => Ok s
-    | Project s => Ok s
-    | _ => match cur with Some m => Ok (m_schema m) | None => Err end
-    end in
-  let fragment_id :=
-    match op with
-    | Overwrite _ _ _ => 0
-    | _ => match cur with
-           | Some m => match max_fragment_id m with Some id => id + 1 | None => 0 end
-           | None => 0
-           end
-    end in
-  let indices := match cur with Some m => m_indices m | None => [] end in
-  let* next_row_id :=
-    match cur, cfg_stable cfg with
-    | Some m, st => match m_next_row_id m with
-                    | Some n => Ok (Some n)
-                    | None => if st then Err else Ok None
+(* build_manifest is cut in four pieces (same order of evaluation as the Rust function):
+   op_schema / start_next_row_id (the preamble), build_arm (the `match &self.operation`), finish_manifest
+   (sort, tombstone removal, Manifest::new*, feature flags, max_fragment_id, ReserveFragments, next_row_id). *)
+Definition op_schema (cur : option Manifest) (op : Operation) : outcome (list Z) :=
+  match op with
+  | Overwrite _ s _ => Ok s
+  | Merge _ s => Ok s
+  | Project s => Ok s
+  | _ => match cur with Some m => Ok (m_schema m) | None => Err end
+  end.
+
+Definition start_fragment_id (cur : option Manifest) (op : Operation) : N :=
+  match op with
+  | Overwrite _ _ _ => 0
+  | _ => match cur with
+         | Some m => match max_fragment_id m with Some id => id + 1 | None => 0 end
+         | None => 0
+         end
+  end.
+
+Definition start_next_row_id (cur : option Manifest) (cfg : config) : outcome (option N) :=
+  match cur, cfg_stable cfg with
+  | Some m, st => match m_next_row_id m with
+                  | Some n => Ok (Some n)
+                  | None => if st then Err else Ok None
+                  end
+  | None, true => Ok (Some 0)
+  | None, false => Ok None
+  end.
+
+Definition cur_indices (cur : option Manifest) : list Index := match cur with Some m => m_indices m | None => [] end.
+Definition next_version (cur : option Manifest) : N := match cur with Some m => m_version m + 1 | None => 1 end.
+
+Definition apply_updates_last (updated : list Fragment) (f : Fragment) : Fragment :=
+  fold_left (fun acc u => if fr_id u =? fr_id acc then u else acc) updated f.
+Definition apply_updates_first (removed : list N) (updated : list Fragment) (f : Fragment) : list Fragment :=
+  if n_mem (fr_id f) removed then []
+  else match find (fun uf => fr_id uf =? fr_id f) updated with
+       | Some u => [u]
+       | None => [f]
+       end.
+Definition project_files (schema : list Z) (f : Fragment) : Fragment :=
+  set_files f (filter (fun d => existsb (fun x => z_mem x schema) (df_fields d)) (fr_files f)).
+
+Definition build_arm (cur : option Manifest) (op : Operation) (cfg : config) (schema : list Z)
+  (fragment_id : N) (indices : list Index) (next_row_id : option N)
+  : outcome (list Fragment * list Index * option N) :=
+  let new_version := next_version cur in
+  match op with
+  | Append fragments =>
+      let* existing := with_existing cur in
+      let new_fragments := fst (fragments_with_ids fragments fragment_id) in
+      let* (new_fragments, nri) := stamp_if_stable cur next_row_id new_fragments in
+      Ok (existing ++ new_fragments, indices, nri)
+  | Delete updated_fragments deleted_fragment_ids =>
+      let* existing := with_existing cur in
+      let kept := filter (fun f => negb (n_mem (fr_id f) deleted_fragment_ids)) existing in
+      let final := map (apply_updates_last updated_fragments) kept in
+      Ok (final, retain_relevant_indices indices schema final, next_row_id)
+  | Update removed_fragment_ids updated_fragments new_fragments fields_modified fields_preserving update_mode =>
+      let* existing := with_existing cur in
+      let updated_frags := flat_map (apply_updates_first removed_fragment_ids updated_fragments) existing in
+      let* indices := prune_updated_fields_from_indices indices updated_fragments fields_modified in
+      let new_fragments := fst (fragments_with_ids new_fragments fragment_id) in
+      let* (new_fragments, next_row_id) :=
+        match next_row_id with
+        | Some n => let* (n', l) := assign_row_ids n new_fragments in
+                    let* l := stamp_updated_fragments existing new_version l in
+                    Ok (l, Some n')
+        | None => Ok (new_fragments, None)
+        end in
+      let* indices :=
+        if cfg_stable cfg && match update_mode with Some RewriteRows => true | _ => false end then
+          let* pure := collect_pure_ids new_fragments in
+          register_pure_frags indices pure (removed_fragment_ids ++ frag_ids updated_fragments) fields_preserving
+        else Ok indices in
+      let* (new_fragments, next_row_id) :=
+        match next_row_id with
+        | Some n => let* (n', l) := assign_row_ids n new_fragments in Ok (l, Some n')
+        | None => Ok (new_fragments, None)
+        end in
+      let final := updated_frags ++ new_fragments in
+      Ok (final, retain_relevant_indices indices schema final, next_row_id)
+  | Overwrite fragments _ _ =>
+      let new_fragments := fst (fragments_with_ids fragments fragment_id) in
+      let* (new_fragments, nri) := stamp_if_stable cur next_row_id new_fragments in
+      Ok (new_fragments, [], nri)
+  | Rewrite groups rewritten_indices frag_reuse_index =>
+      let* existing := with_existing cur in
+      let* (final, _) := handle_rewrite_fragments existing groups fragment_id in
+      let* indices :=
+        match next_row_id with
+        | Some _ => match rewritten_indices with
+                    | [] => recalc_all_bitmaps indices groups
+                    | _ => Panic                             (* debug_assert!(rewritten_indices.is_empty()) *)
                     end
-    | None, true => Ok (Some 0)
-    | None, false => Ok None
-    end in
-  let new_version := match cur with Some m => m_version m + 1 | None => 1 end in
-  let* (final_fragments, final_indices, next_row_id) :=
-    match op with
-    | Append fragments =>
-        let* existing := with_existing cur in
-        let '(new_fragments, _) := fragments_with_ids fragments fragment_id in
-        let* (new_fragments, nri) := stamp_if_stable cur next_row_id new_fragments in
-        Ok (existing ++ new_fragments, indices, nri)
-    | Delete updated_fragments deleted_fragment_ids =>
-        let* existing := with_existing cur in
-        let kept := filter (fun f => negb (n_mem (fr_id f) deleted_fragment_ids)) existing in
-        let final := map (fun f => fold_left (fun acc u => if fr_id u =? fr_id acc then u else acc) updated_fragments f) kept in
-        Ok (final, retain_relevant_indices indices schema final, next_row_id)
-    | Update removed_fragment_ids updated_fragments new_fragments fields_modified fields_preserving update_mode =>
-        let* existing := with_existing cur in
-        let updated_frags :=
-          flat_map (fun f => if n_mem (fr_id f) removed_fragment_ids then []
-                             else match find (fun uf => fr_id uf =? fr_id f) updated_fragments with
-                                  | Some u => [u]
-                                  | None => [f]
-                                  end) existing in
-        let* indices := prune_updated_fields_from_indices indices updated_fragments fields_modified in
-        let '(new_fragments, _) := fragments_with_ids new_fragments fragment_id in
-        let* (new_fragments, next_row_id) :=
-          match next_row_id with
-          | Some n => let* (n', l) := assign_row_ids n new_fragments in
-                      let* l := stamp_updated_fragments existing new_version l in
-                      Ok (l, Some n')
-          | None => Ok (new_fragments, None)
-          end in
-        let* indices :=
-          if cfg_stable cfg && match update_mode with Some RewriteRows => true | _ => false end then
-            let* pure := collect_pure_ids new_fragments in
-            register_pure_frags indices pure (removed_fragment_ids ++ frag_ids updated_fragments) fields_preserving
-          else Ok indices in
-        let* (new_fragments, next_row_id) :=
-          match next_row_id with
-          | Some n => let* (n', l) := assign_row_ids n new_fragments in Ok (l, Some n')
-          | None => Ok (new_fragments, None)
-          end in
-        let final := updated_frags ++ new_fragments in
-        Ok (final, retain_relevant_indices indices schema final, next_row_id)
-    | Overwrite fragments _ _ =>
-        let '(new_fragments, _) := fragments_with_ids fragments fragment_id in
-        let* (new_fragments, nri) := stamp_if_stable cur next_row_id new_fragments in
-        Ok (new_fragments, [], nri)
-    | Rewrite groups rewritten_indices frag_reuse_index =>
-        let* existing := with_existing cur in
-        let* (final, _) := handle_rewrite_fragments existing groups fragment_id in
-        let* indices :=
-          match next_row_id with
-          | Some _ => match rewritten_indices with
-                      | [] => recalc_all_bitmaps indices groups
-                      | _ => Panic                             (* debug_assert!(rewritten_indices.is_empty()) *)
-                      end
-          | None => handle_rewrite_indices indices rewritten_indices groups []
-          end in
-        let indices := match frag_reuse_index with
-                       | Some fri => filter (fun i => negb (ix_name i =? ix_name fri)) indices ++ [fri]
-                       | None => indices
-                       end in
-        Ok (final, indices, next_row_id)
-    | CreateIndex new_indices removed_indices =>
-        let* existing := with_existing cur in
-        let kept := filter (fun e => negb (existsb (fun n => ix_name n =? ix_name e) new_indices)
-                                     && negb (existsb (fun o => ix_uuid o =? ix_uuid e) removed_indices)) indices in
-        Ok (existing, kept ++ new_indices, next_row_id)
-    | ReserveFragments _ | UpdateConfig =>
-        let* existing := with_existing cur in
-        Ok (existing, indices, next_row_id)
-    | Merge fragments _ =>
-        Ok (fragments, retain_relevant_indices indices schema fragments, next_row_id)
-    | Project _ =>
-        let* existing := with_existing cur in
-        let final := map (fun f => set_files f (filter (fun d => existsb (fun x => z_mem x schema) (df_fields d)) (fr_files f))) existing in
-        Ok (final, retain_relevant_indices indices schema final, next_row_id)
-    | DataReplacement replacements =>
-        if negb (fields_all_same replacements) then Err else
-        let* existing := with_existing cur in
-        let* replaced := replace_all existing replacements in
-        let changed := map fst replacements in
-        Ok (replaced ++ filter (fun f => negb (n_mem (fr_id f) changed)) existing, indices, next_row_id)
-    end in
+        | None => handle_rewrite_indices indices rewritten_indices groups []
+        end in
+      let indices := match frag_reuse_index with
+                     | Some fri => filter (fun i => negb (ix_name i =? ix_name fri)) indices ++ [fri]
+                     | None => indices
+                     end in
+      Ok (final, indices, next_row_id)
+  | CreateIndex new_indices removed_indices =>
+      let* existing := with_existing cur in
+      let kept := filter (fun e => negb (existsb (fun n => ix_name n =? ix_name e) new_indices)
+                                   && negb (existsb (fun o => ix_uuid o =? ix_uuid e) removed_indices)) indices in
+      Ok (existing, kept ++ new_indices, next_row_id)
+  | ReserveFragments _ | UpdateConfig =>
+      let* existing := with_existing cur in
+      Ok (existing, indices, next_row_id)
+  | Merge fragments _ =>
+      Ok (fragments, retain_relevant_indices indices schema fragments, next_row_id)
+  | Project _ =>
+      let* existing := with_existing cur in
+      let final := map (project_files schema) existing in
+      Ok (final, retain_relevant_indices indices schema final, next_row_id)
+  | DataReplacement replacements =>
+      if negb (fields_all_same replacements) then Err else
+      let* existing := with_existing cur in
+      let* replaced := replace_all existing replacements in
+      let changed := map fst replacements in
+      Ok (replaced ++ filter (fun f => negb (n_mem (fr_id f) changed)) existing, indices, next_row_id)
+  end.
+
+Definition finish_manifest (cur : option Manifest) (op : Operation) (cfg : config) (schema : list Z)
+  (final_fragments : list Fragment) (final_indices : list Index) (next_row_id : option N) : outcome Manifest :=
   let final_fragments := remove_tombstoned_data_files (sort_frags final_fragments) in
   let* (version, prev_max, storage) :=
     match cur with
@@ -730,6 +755,8 @@ Definition build_manifest (cur : option Manifest) (op : Operation) (cfg : config
         let* storage := data_storage_format_from_files final_fragments (cfg_storage cfg) in
         Ok (1, None, storage)
     end in
+  (* Manifest::new / new_from_previous -> compute_fragment_offsets -> Fragment::num_rows: `len - num_deleted_rows` *)
+  if existsb num_rows_underflows final_fragments then Panic else
   (* apply_feature_flags (auto_set_feature_flags = true): the FLAG_STABLE_ROW_IDS part *)
   let has_row_ids := existsb (fun f => is_some (fr_row_ids f)) final_fragments in
   let* stable :=
@@ -747,6 +774,14 @@ Definition build_manifest (cur : option Manifest) (op : Operation) (cfg : config
   let raw_next_row_id := match next_row_id with Some n => n | None => 0 end in   (* D1 *)
   Ok (mkManifest version schema final_fragments max_id
                  (if stable then Some raw_next_row_id else None) storage final_indices).
+
+Definition build_manifest (cur : option Manifest) (op : Operation) (cfg : config) : outcome Manifest :=
+  if cfg_stable cfg && match cur with Some m => negb (uses_stable m) | None => false end then Err else
+  let* schema := op_schema cur op in
+  let* next_row_id := start_next_row_id cur cfg in
+  let* (final_fragments, final_indices, next_row_id) :=
+    build_arm cur op cfg schema (start_fragment_id cur op) (cur_indices cur) next_row_id in
+  finish_manifest cur op cfg schema final_fragments final_indices next_row_id.
 
 (* ---------------------------------------------------------------- validate_operation *)
 Definition schema_fragments_legacy_valid (schema : list Z) (l : list Fragment) : bool :=
@@ -828,6 +863,13 @@ Fixpoint remap_files_rev (files_rev : list DataFile) (mp : list (Z * Z)) (seen :
               mkDataFile (df_path d) fs (df_version d) (df_rows d) :: remap_files_rev r mp seen'
   end.
 
+(* mut_field_by_id(old).id = new: the first schema field carrying the id *)
+Fixpoint z_replace_first (old new : Z) (l : list Z) : list Z :=
+  match l with
+  | [] => []
+  | x :: r => if (x =? old)%Z then new :: r else x :: z_replace_first old new r
+  end.
+
 (* fix_schema: `mut_field_by_id(old).unwrap()` panics when a duplicated id is not a schema field *)
 Definition fix_schema (m : Manifest) : outcome Manifest :=
   if forallb (fun f => (length (fr_files f) <=? 1)%nat) (m_fragments m) then Ok m else
@@ -839,7 +881,7 @@ Definition fix_schema (m : Manifest) : outcome Manifest :=
       let mp := combine dups (map (fun i => (seed + Z.of_nat i)%Z) (seq 0 (length dups))) in
       let frags := map (fun f => set_files f (rev (remap_files_rev (rev (fr_files f)) mp []))) (m_fragments m) in
       if negb (forallb (fun x => z_mem x (m_schema m)) dups) then Panic else
-      let schema := map (fun x => match z_assoc x mp with Some y => y | None => x end) (m_schema m) in
+      let schema := fold_left (fun s p => z_replace_first (fst p) (snd p) s) mp (m_schema m) in
       let frags := map (fun f => set_files f (filter (fun d => existsb (fun x => z_mem x schema) (df_fields d)) (fr_files f))) frags in
       Ok (mkManifest (m_version m) schema frags (m_max_fragment_id m) (m_next_row_id m) (m_storage m) (m_indices m))
   end.
@@ -865,11 +907,14 @@ Definition check_storage_version (m : Manifest) : outcome Manifest :=
 
 (* One successful call of commit_transaction on the latest version (after the rebase, which yields the
    transaction that is then written to the transaction file): validate (CommitBuilder::execute), build against
-   the latest manifest with use_stable_row_ids = latest.uses_stable_row_ids(), fix_schema, check_storage_version.
-   migrate_manifest is the identity on manifests whose fragments carry physical_rows. *)
-Definition commit_step (latest : Manifest) (op : Operation) (storage : option fver) : outcome Manifest :=
+   the latest manifest, fix_schema, check_storage_version.  migrate_manifest is the identity on manifests whose
+   fragments carry physical_rows.  [use_stable] is ManifestWriteConfig.use_stable_row_ids: CommitBuilder passes
+   latest.uses_stable_row_ids(); Dataset::apply_commit (schema evolution, index and config commits, restore,
+   ReserveFragments of compaction) passes ManifestWriteConfig::default(), i.e. false. *)
+Definition commit_step (latest : Manifest) (op : Operation) (use_stable : bool) (storage : option fver)
+  : outcome Manifest :=
   if negb (validate_operation (Some latest) op) then Err else
-  let* m := build_manifest (Some latest) op (mkConfig (uses_stable latest) storage) in
+  let* m := build_manifest (Some latest) op (mkConfig use_stable storage) in
   let* m := fix_schema m in
   check_storage_version m.
 
@@ -877,17 +922,24 @@ Definition commit_step (latest : Manifest) (op : Operation) (storage : option fv
 Definition create_step (op : Operation) (cfg : config) : outcome Manifest :=
   if negb (validate_operation None op) then Err else build_manifest None op cfg.
 
-(* Operation::Restore in commit_transaction: the old manifest, re-versioned; next_row_id never goes down *)
+(* Operation::Restore in commit_transaction (Dataset::restore commits through apply_commit, i.e. with
+   ManifestWriteConfig::default()): the old manifest, re-versioned; next_row_id and max_fragment_id never go
+   down; write_manifest_file recomputes the feature flags from the fragments (use_stable_row_ids = false) *)
+Definition opt_max (a b : option N) : option N :=
+  match a, b with
+  | Some x, Some y => Some (N.max x y)
+  | Some x, None => Some x
+  | None, o => o
+  end.
 Definition restore_step (latest old : Manifest) : Manifest :=
-  mkManifest (m_version latest + 1) (m_schema old) (m_fragments old) (m_max_fragment_id old)
-             (match m_next_row_id old, m_next_row_id latest with
-              | Some a, Some b => Some (N.max a b)
-              | o, _ => o
-              end)
+  let raw (m : Manifest) := match m_next_row_id m with Some n => n | None => 0 end in
+  let stable := existsb (fun f => is_some (fr_row_ids f)) (m_fragments old) in
+  mkManifest (m_version latest + 1) (m_schema old) (m_fragments old)
+             (opt_max (max_fragment_id old) (max_fragment_id latest))
+             (if stable then Some (N.max (raw old) (raw latest)) else None)
              (m_storage old) (m_indices old).
 
 (* ---------------------------------------------------------------- well-formedness (property C05) *)
-Definition file_ok (p : N) (d : DataFile) : bool := (df_rows d =? p) && has_live_field d.
 Definition live_fields (f : Fragment) : list Z := filter (fun x => negb (x =? TOMBSTONE)%Z) (all_fields f).
 Definition deletion_ok (p : N) (d : option DeletionFile) : bool :=
   match d with
@@ -904,16 +956,19 @@ Definition versions_ok (p : N) (v : option (list N)) : bool :=
   match v with Some l => len_n l =? p | None => true end.
 
 (* an internally consistent fragment of a table with / without stable row ids *)
-Definition wf_fragment (stable : bool) (f : Fragment) : bool :=
+Definition frag_consistent (stable : bool) (f : Fragment) : bool :=
   match fr_phys f with
   | None => false
   | Some p =>
-      forallb (file_ok p) (fr_files f)
-      && nodup_z (live_fields f)
+      forallb (fun d => df_rows d =? p) (fr_files f)
+      && nodup_z (live_fields f) && forallb (fun x => (0 <=? x)%Z) (live_fields f)
       && deletion_ok p (fr_deletion f)
       && row_ids_ok stable p (fr_row_ids f)
       && versions_ok p (fr_created_at f) && versions_ok p (fr_updated_at f)
   end.
+(* ... in which, moreover, every data file still stores a live field (as in every manifest build_manifest returns) *)
+Definition wf_fragment (stable : bool) (f : Fragment) : bool :=
+  frag_consistent stable f && forallb has_live_field (fr_files f).
 
 Definition index_ok (schema : list Z) (i : Index) : bool :=
   forallb (fun x => z_mem x schema) (ix_fields i) || is_system_index i.
@@ -924,12 +979,122 @@ Definition max_ok (mx : option N) (l : list Fragment) : bool :=
   | None => match l with [] => true | _ => false end
   end.
 
+Definition schema_ok (schema : list Z) : bool := nodup_z schema && forallb (fun x => (0 <=? x)%Z) schema.
+
 Definition wf_manifest (m : Manifest) : bool :=
-  nodup_z (m_schema m) && forallb (fun x => (0 <=? x)%Z) (m_schema m)
+  schema_ok (m_schema m)
   && forallb (wf_fragment (uses_stable m)) (m_fragments m)
   && strict_sorted_n (frag_ids (m_fragments m))
   && max_ok (m_max_fragment_id m) (m_fragments m)
   && forallb (index_ok (m_schema m)) (m_indices m).
+
+(* ---------------------------------------------------------------- what the writers guarantee (hypothesis of C05) *)
+(* a fragment as a writer hands it to a transaction before ids / row ids are assigned: row ids absent, partial
+   (merge_insert: the ids of the rewritten rows come first) or complete *)
+Definition new_fragment_ok (stable : bool) (f : Fragment) : bool :=
+  match fr_phys f with
+  | None => false
+  | Some p =>
+      forallb (fun d => df_rows d =? p) (fr_files f)
+      && nodup_z (live_fields f) && forallb (fun x => (0 <=? x)%Z) (live_fields f)
+      && deletion_ok p (fr_deletion f)
+      && match fr_row_ids f with Some ids => stable && (len_n ids <=? p) | None => true end
+      && (stable || (versions_ok p (fr_created_at f) && versions_ok p (fr_updated_at f)))
+  end.
+Definition unassigned_ok (stable : bool) (l : list Fragment) : bool :=
+  forallb (fun f => (fr_id f =? 0) && new_fragment_ok stable f) l.
+
+(* [op_ok stable cur op]: the fragments / schema / indices carried by the operation are internally consistent
+   and respect the `id = 0 <=> unassigned` convention; `stable` is the table's stable-row-id setting *)
+Definition op_ok (stable : bool) (cur : option Manifest) (op : Operation) : bool :=
+  let existing := match cur with Some m => m_fragments m | None => [] end in
+  let schema := match cur with Some m => m_schema m | None => [] end in
+  match op with
+  | Append fragments => unassigned_ok stable fragments
+  | Overwrite fragments schema _ => unassigned_ok stable fragments && schema_ok schema
+  | Delete updated _ => forallb (frag_consistent stable) updated
+  | Update _ updated new_fragments _ _ _ =>
+      forallb (frag_consistent stable) updated && unassigned_ok stable new_fragments
+  | Rewrite groups _ fri =>
+      let all_new := flat_map rg_new groups in
+      let reserved := filter (fun i => negb (i =? 0)) (frag_ids all_new) in
+      forallb (frag_consistent stable) all_new
+      && nodup_n reserved
+      && forallb (fun i => negb (n_mem i (frag_ids existing))
+                           && match cur with
+                              | Some m => match max_fragment_id m with Some mx => i <=? mx | None => false end
+                              | None => false
+                              end) reserved
+      && match fri with Some i => index_ok schema i | None => true end
+  | CreateIndex new_indices _ => forallb (index_ok schema) new_indices
+  | Merge fragments schema => forallb (frag_consistent stable) fragments && nodup_n (frag_ids fragments) && schema_ok schema
+  | Project schema => schema_ok schema
+  | DataReplacement replacements =>
+      nodup_n (map fst replacements)
+      && forallb (fun r => match find (fun f => fr_id f =? fst r) existing with
+                           | Some f => option_eqb N.eqb (fr_phys f) (Some (df_rows (snd r)))
+                           | None => true
+                           end
+                           && nodup_z (filter (fun x => negb (x =? TOMBSTONE)%Z) (df_fields (snd r)))
+                           && forallb (fun x => (0 <=? x)%Z) (filter (fun x => negb (x =? TOMBSTONE)%Z) (df_fields (snd r)))) replacements
+  | ReserveFragments _ | UpdateConfig => true
+  end.
+
+(* ---------------------------------------------------------------- Dataset::validate, the manifest-only part *)
+(* FileFragment::validate, first loop: `let last = -1;` is never updated, so the test `*field_id <= last`
+   rejects exactly the negative ids (among them the tombstone -2); then every id must be new in the fragment *)
+Fixpoint validate_field_ids (fields seen : list Z) : option (list Z) :=
+  match fields with
+  | [] => Some seen
+  | x :: r => if (x <=? -1)%Z then None else if z_mem x seen then None else validate_field_ids r (x :: seen)
+  end.
+Fixpoint validate_files (files : list DataFile) (seen : list Z) : bool :=
+  match files with
+  | [] => true
+  | d :: r => match validate_field_ids (df_fields d) seen with Some seen' => validate_files r seen' | None => false end
+  end.
+(* Dataset::validate: fragment ids unique and non-decreasing, then every fragment's field ids *)
+Fixpoint sorted_n (l : list N) : bool :=
+  match l with [] => true | x :: r => match r with [] => true | y :: _ => (x <=? y) && sorted_n r end end.
+Definition is_legacy_file (d : DataFile) : bool := (fst (df_version d) =? 0) && (snd (df_version d) <? 3).
+(* FileFragment::validate on the manifest entry plus the storage facts it reads back (file lengths, deletion
+   vector).  Not modelled: DataFile::validate (column_indices). *)
+Definition validate_fragment (schema : list Z) (f : Fragment) : bool :=
+  validate_files (fr_files f) []
+  && Bool.eqb (existsb is_legacy_file (fr_files f)) (forallb is_legacy_file (fr_files f))
+  (* open_reader: a data file without any field of the dataset schema is an error *)
+  && forallb (fun d => existsb (fun x => z_mem x schema) (df_fields d)) (fr_files f)
+  && (let expected := match fr_files f with d :: _ => df_rows d | [] => 0 end in
+      forallb (fun d => df_rows d =? expected) (fr_files f)
+      && match fr_phys f with Some p => p =? expected | None => true end
+      && match fr_deletion f with
+         | Some d => match dl_num d with Some n => n =? len_n (dl_rows d) | None => true end
+                     && forallb (fun o => o <? expected) (dl_rows d)
+         | None => true
+         end).
+(* detect_overlapping_fragments: per index name, no fragment id in two bitmaps *)
+Definition indices_disjoint (l : list Index) : bool :=
+  forallb (fun i => nodup_n (flat_map (fun j => match ix_bitmap j with Some b => b | None => [] end)
+                                      (filter (fun j => ix_name j =? ix_name i) l))) l.
+(* Dataset::validate (without the fragment-reuse remapping done by load_indices) *)
+Definition validate_dataset (m : Manifest) : bool :=
+  nodup_n (frag_ids (m_fragments m)) && sorted_n (frag_ids (m_fragments m))
+  && forallb (validate_fragment (m_schema m)) (m_fragments m)
+  && nodup_n (map ix_uuid (m_indices m)) && indices_disjoint (m_indices m).
+
+(* Known finding (C05) validate_rejects_tombstoned_field: some data file still lists a tombstoned field *)
+Definition has_tombstone (f : Fragment) : bool := existsb (fun d => z_mem TOMBSTONE (df_fields d)) (fr_files f).
+Definition Known_C05_validate_rejects_tombstoned_field (m : Manifest) : bool := existsb has_tombstone (m_fragments m).
+
+(* Known finding (C05) stable_rowids_deferred_remap_unassigned_fragment_ids: a Rewrite that carries a
+   fragment-reuse index (compaction with defer_index_remap) on a table with stable row ids while its new
+   fragments still have the unassigned id 0: the bitmaps are computed from the id 0 *)
+Definition Known_C05_stable_rowids_deferred_remap_unassigned_fragment_ids (cur : Manifest) (op : Operation) : bool :=
+  uses_stable cur &&
+  match op with
+  | Rewrite groups _ (Some _) => existsb (fun f => fr_id f =? 0) (flat_map rg_new groups)
+  | _ => false
+  end.
 
 (* ---------------------------------------------------------------- live rows (properties C18, C07, C13, C17) *)
 (* the physical positions of a fragment that are not deleted, with their row ids (when stable) *)
@@ -966,7 +1131,8 @@ Definition chk_validate (i : option Manifest * Operation) (o : bool) : bool :=
 (* e2e arm: a real commit (previous manifest, the committed transaction, storage format) -> the manifest read back *)
 Definition chk_commit (i : Manifest * Operation * option fver) (o : Manifest) : bool :=
   let '(latest, op, sf) := i in
-  outcome_eqb manifest_eqb (commit_step latest op sf) (Ok o).
+  outcome_eqb manifest_eqb (commit_step latest op (uses_stable latest) sf) (Ok o)
+  || outcome_eqb manifest_eqb (commit_step latest op false sf) (Ok o).
 Definition chk_create (i : Operation * (bool * option fver)) (o : Manifest) : bool :=
   let '(op, (st, sf)) := i in
   outcome_eqb manifest_eqb (create_step op (mkConfig st sf)) (Ok o).
@@ -975,6 +1141,13 @@ Definition chk_restore (i : Manifest * Manifest) (o : Manifest) : bool :=
 
 (* e2e arm: the exported real manifest is well formed; `o` is the verdict of Dataset::validate() *)
 Definition chk_wf (m : Manifest) (o : bool) : bool := Bool.eqb (wf_manifest m) o.
+
+(* e2e arm: the transaction a real writer committed satisfies the hypotheses of C05_build_preserves_wf *)
+Definition chk_op_ok (i : option Manifest * Operation * bool) (o : bool) : bool :=
+  let '(cur, op, stable) := i in Bool.eqb (op_ok stable cur op) o.
+
+(* e2e arm: the verdict of the real Dataset::validate() on a committed version *)
+Definition chk_dataset_validate (m : Manifest) (o : bool) : bool := Bool.eqb (validate_dataset m) o.
 
 (* e2e arm: the scan of (_rowid, _rowaddr) in order is the model's live row list *)
 Definition chk_live_rows (m : Manifest) (o : list (N * N)) : bool :=
